@@ -499,6 +499,11 @@ func (w *World) afterOp(t *simrt.Task, hs *HandleState, cr *CallRec, before dirS
 		w.deepReadCheck(hs, cr)
 	}
 
+	if w.Porcupine && (cr.Kind == OpOpen || cr.Kind == OpReopen) && cr.Class == "ok" && hs.Open && hs.St.Merged() != nil {
+		if refs, logs, err := ScanTable(hs.St.Merged()); err == nil {
+			cr.OpenDigest = StateOf(refs, logs).Digest()
+		}
+	}
 	// ---- fresh open (C04)
 	if (cr.Kind == OpOpen || cr.Kind == OpReopen) && cr.Class == "ok" && hs.Open {
 		if hs.Version >= 0 && hs.Version < cr.LatestAtStart {
